@@ -204,6 +204,16 @@ def run(tier):
         d1, d2 = f >> e, f >> f.dagger() >> f >> e
         suite.identity('eval.sum', entries(mat(F(d1 + d2))), entries(layered(d1, arrays) + layered(d2, arrays)),
                        extra=syms, functions=fq + ['tensor.Sum.eval'], what='sums are interpreted termwise')
+    with suite.guard('sums under >>, @, dagger', ['tensor.Sum.upgrade']):
+        sv, sw = tensor.Box('v', Dim(1), Dim(2), arrays[s]), tensor.Box('w', Dim(1), Dim(2), [3, 4])
+        pp = tensor.Box('p', Dim(2), Dim(2), [1, 2, 0, 1])
+        ssum = sv + sw
+        I2 = tensor.Functor(lambda t: t, lambda b: b.array)
+        for nm, dd in (('sum >> box', ssum >> pp), ('sum @ box', ssum @ sv), ('box @ sum', sv @ ssum),
+                       ('sum.dagger()', ssum.dagger()), ('(sum >> box).dagger()', (ssum >> pp).dagger())):
+            suite.identity('eval.sum[%s]' % nm, entries(mat(dd.eval())), entries(mat(I2(dd))), extra=syms,
+                           functions=['tensor.Sum.eval', 'monoidal.Sum.upgrade'],
+                           what='a sum of tensor diagrams composed / tensored / daggered still evaluates, to the image under the identity-on-arrays functor')
     with suite.guard('empty sum', ['tensor.Sum.eval']):
         z0 = tensor.Sum([], Dim(2), Dim(3)).eval()
         suite.fact('eval.sum.empty', isinstance(z0, tensor.Tensor) and (z0.dom, z0.cod) == (Dim(2), Dim(3))
